@@ -3,6 +3,7 @@ C25 — Topic handshake transfers the initiator's topic or fails cleanly.
 Model: `P2/Model/Handshake.lean`.  `T` is an arbitrary topic type.
 -/
 import P2.Model.Handshake
+import P2.Extracted.C25
 
 namespace P2.C25
 open P2.Handshake
@@ -279,6 +280,164 @@ theorem c25_agree_transcripts (t : T) :
     ∧ (runT noFaults (acceptor (T := T)) [.msg (.topic t), .msg .done] 0).res = .ok t
     ∧ (runT noFaults (acceptor (T := T)) [.msg (.topic t), .msg .done] 0).sent = [.done] := by
   simp [acceptor, initiator, runT, noFaults, sinkFails]
+
+/-! ## Tie to the source text
+
+`props/C25_extract.py` reads the two `run` bodies of `topic_handshake.rs` as they are *now* and
+emits one token per top-level statement (a statement of unknown shape is an extraction
+failure). `compile` gives the tokens their meaning as a program tree; `c25_model_is_source`
+proves that the compiled skeletons are exactly the hand-written models `initiator` / `acceptor`.
+Dropping an else-branch, changing a pattern, an error variant, the order of effects or the topic
+an event carries changes the tokens and breaks the theorem. -/
+
+inductive Var where
+  | self    -- `self.topic`
+  | bound   -- `topic` bound by the `Topic(topic)` pattern
+deriving DecidableEq, Repr
+
+inductive ErrK where
+  | sink | stream
+deriving DecidableEq, Repr
+
+inductive Stmt where
+  | evInitiate (v : Var) | evAccept | evTopicReceived (v : Var) | evDone (v : Var)
+  | sendTopicSelf (e : ErrK) | sendDone (e : ErrK)
+  | recv | itemErr (e : ErrK) | expectTopic | expectDone
+  | flush (e : ErrK) | evFlush | retUnit | retBound
+deriving DecidableEq, Repr
+
+def parseStmt (s : String) : Option Stmt :=
+  if s = "ev:Initiate:self" then some (.evInitiate .self)
+  else if s = "ev:Initiate:bound" then some (.evInitiate .bound)
+  else if s = "ev:Accept" then some .evAccept
+  else if s = "ev:TopicReceived:self" then some (.evTopicReceived .self)
+  else if s = "ev:TopicReceived:bound" then some (.evTopicReceived .bound)
+  else if s = "ev:Done:self" then some (.evDone .self)
+  else if s = "ev:Done:bound" then some (.evDone .bound)
+  else if s = "send:Topic:self:MessageSink" then some (.sendTopicSelf .sink)
+  else if s = "send:Topic:self:MessageStream" then some (.sendTopicSelf .stream)
+  else if s = "send:Done:MessageSink" then some (.sendDone .sink)
+  else if s = "send:Done:MessageStream" then some (.sendDone .stream)
+  else if s = "recv:UnexpectedStreamClosure" then some .recv
+  else if s = "itemerr:MessageSink" then some (.itemErr .sink)
+  else if s = "itemerr:MessageStream" then some (.itemErr .stream)
+  else if s = "expect:Topic:UnexpectedMessage" then some .expectTopic
+  else if s = "expect:Done:UnexpectedMessage" then some .expectDone
+  else if s = "flush:MessageSink" then some (.flush .sink)
+  else if s = "flush:MessageStream" then some (.flush .stream)
+  else if s = "evflush" then some .evFlush
+  else if s = "ret:unit" then some .retUnit
+  else if s = "ret:bound" then some .retBound
+  else none
+
+/-- what the `message` variable currently holds -/
+inductive Ctx (T : Type) where
+  | none
+  | item (i : Item T)    -- after `let Some(message) = stream.next().await else …`
+  | msg (m : Msg T)      -- after `let message = message.map_err(..)?`
+
+def errOf {T : Type} : ErrK → Err T
+  | .sink => .sink
+  | .stream => .stream
+
+def varOf {T : Type} (own bound : Option T) : Var → Option T
+  | .self => own
+  | .bound => bound
+
+/-- marker for an ill-formed skeleton (no model contains it) -/
+def junk {T R : Type} : Prog T R := .fail .mpsc
+
+/-- Meaning of a statement skeleton. `own` = `self.topic` (initiator only), `ru` / `rt` = how
+    `Ok(())` / `Ok(topic)` become the protocol's output type. -/
+def compile {T R : Type} (own : Option T) (ru : Option R) (rt : T → Option R) :
+    List Stmt → Ctx T → Option T → Prog T R
+  | [], _, _ => junk
+  | .evInitiate v :: r, c, b =>
+    match varOf own b v with | some t => .ev (.initiate t) (compile own ru rt r c b) | none => junk
+  | .evAccept :: r, c, b => .ev .accept (compile own ru rt r c b)
+  | .evTopicReceived v :: r, c, b =>
+    match varOf own b v with | some t => .ev (.topicReceived t) (compile own ru rt r c b) | none => junk
+  | .evDone v :: r, c, b =>
+    match varOf own b v with | some t => .ev (.done t) (compile own ru rt r c b) | none => junk
+  | .sendTopicSelf e :: r, c, b =>
+    match own with | some t => .send (.topic t) (errOf e) (compile own ru rt r c b) | none => junk
+  | .sendDone e :: r, c, b => .send .done (errOf e) (compile own ru rt r c b)
+  | .recv :: r, _, b =>
+    .recv (fun i => match i with
+      | .closed => .fail .closed
+      | .item it => compile own ru rt r (.item it) b)
+  | .itemErr e :: r, .item it, b =>
+    (match it with
+     | .err => .fail (errOf e)
+     | .msg m => compile own ru rt r (.msg m) b)
+  | .itemErr _ :: _, _, _ => junk
+  | .expectTopic :: r, .msg m, _ =>
+    (match m with
+     | .topic t => compile own ru rt r .none (some t)
+     | .done => .fail (.unexpected .done))
+  | .expectTopic :: _, _, _ => junk
+  | .expectDone :: r, .msg m, b =>
+    (match m with
+     | .done => compile own ru rt r .none b
+     | .topic t => .fail (.unexpected (.topic t)))
+  | .expectDone :: _, _, _ => junk
+  | .flush .sink :: r, c, b => .flush (compile own ru rt r c b)
+  | .flush .stream :: _, _, _ => junk      -- the model's flush reports MessageSink
+  | .evFlush :: r, c, b => compile own ru rt r c b   -- cannot fail (see `initiator`)
+  | [.retUnit], _, _ => (match ru with | some u => .ret u | none => junk)
+  | [.retBound], _, b => (match b with | some t => (match rt t with | some u => .ret u | none => junk) | none => junk)
+  | .retUnit :: _ :: _, _, _ => junk
+  | .retBound :: _ :: _, _, _ => junk
+
+theorem skeletons_parse :
+    P2.Extracted.C25.initiatorSkeleton.mapM parseStmt = some
+      [.evInitiate .self, .sendTopicSelf .sink, .recv, .itemErr .sink, .expectDone, .sendDone .sink,
+       .evDone .self, .flush .sink, .evFlush, .retUnit]
+    ∧ P2.Extracted.C25.acceptorSkeleton.mapM parseStmt = some
+      [.evAccept, .recv, .itemErr .sink, .expectTopic, .evTopicReceived .bound, .sendDone .stream,
+       .recv, .itemErr .sink, .expectDone, .evDone .bound, .flush .sink, .evFlush, .retBound] := by
+  decide
+
+/-- **The models are the source.** The program trees compiled from the statement skeletons of
+    the two `run` bodies, as extracted from the current source on this run, are the hand-written
+    `initiator t` and `acceptor` all theorems above are about. -/
+theorem c25_model_is_source (t : T) :
+    (P2.Extracted.C25.initiatorSkeleton.mapM parseStmt).map
+        (fun s => compile (some t) (some ()) (fun _ => none) s .none none) = some (initiator t)
+    ∧ (P2.Extracted.C25.acceptorSkeleton.mapM parseStmt).map
+        (fun s => compile (T := T) (R := T) none none some s .none none) = some acceptor := by
+  rw [skeletons_parse.1, skeletons_parse.2]
+  constructor
+  · simp only [Option.map_some, compile, varOf, errOf, initiator, Option.some.injEq]
+    congr 3
+    funext i
+    cases i with
+    | closed => rfl
+    | item it =>
+      cases it with
+      | err => rfl
+      | msg m => cases m <;> rfl
+  · simp only [Option.map_some, compile, varOf, errOf, acceptor, Option.some.injEq]
+    congr 2
+    funext i
+    cases i with
+    | closed => rfl
+    | item it =>
+      cases it with
+      | err => rfl
+      | msg m =>
+        cases m with
+        | done => rfl
+        | topic t' =>
+          simp only
+          congr 3
+          funext j
+          cases j with
+          | closed => rfl
+          | item jt =>
+            cases jt with
+            | err => rfl
+            | msg m2 => cases m2 <;> rfl
 
 /-! ## Non-vacuity -/
 example : (runT noFaults (acceptor (T := Nat)) [.msg (.topic 7), .msg .done] 0).res = .ok 7 := by rfl
